@@ -13,8 +13,25 @@ SPARSE_ARRAY = {
 CONTAINERS = ['ndarray'] + list(SPARSE_MATRIX)
 
 
-def to_container(C, name):
+def relayout(rng, A):
+    """Same values, different memory layout: C order, Fortran order, or a
+    non-contiguous view into a larger buffer."""
+    A = np.asarray(A)
+    k = int(rng.integers(0, 4))
+    if k <= 1 or A.ndim != 2:
+        return np.array(A, order='C')
+    if k == 2:
+        return np.asfortranarray(A)
+    n, m = A.shape
+    big = np.zeros((2 * n, 2 * m + 1), dtype=A.dtype)
+    big[::2, 1::2] = A
+    return big[::2, 1::2]
+
+
+def to_container(C, name, rng=None):
     if name == 'ndarray':
+        if rng is not None:
+            return relayout(rng, C)
         return np.array(C)
     if name in SPARSE_MATRIX:
         return SPARSE_MATRIX[name](np.array(C))
